@@ -233,6 +233,16 @@ def cse_cases(tier, rng, ipool):
             continue        # a subexpression is mapped by the caller before the mapper has hoisted it itself
         cases.append([("call", e1), ("copy-mapped", s3), ("call", p.Sum((w, e2))), ("call", p.Product((n1, 2)))])
         cases.append([("copy-mapped", s1), ("call", e1), ("copy", None), ("call", e2)])
+    # distinct wrapped subexpressions whose C texts coincide (operands are sorted when printed: a + 1 and 1 + a; x**2 and x*x), then a copy, then new wrappers whose
+    # first candidate names are the ones already given
+    same_text = [(p.Sum((a, 1)), p.Sum((1, a))), (p.Power(b, 2), p.Product((b, b))), (p.Product((a, c)), p.Product((c, a)))]
+    for t1, t2 in same_text:
+        for pf in (None, "u"):
+            first = p.Sum((CSE(t1, pf), CSE(t2, pf)))
+            for later in (p.Product((CSE(p.Product((b, 3)), pf), 2)), p.Sum((CSE(p.Sum((c, 5)), pf), CSE(p.Product((c, 7)), pf), CSE(t1, pf)))):
+                cases.append([("call", first), ("copy", None), ("call", later)])
+                cases.append([("call", first), ("copy", None), ("copy", None), ("call", later), ("call", first)])
+                cases.append([("call", first), ("call", later)])
     # the caller maps a subexpression whose own text refers to a name hoisted earlier: its assignment belongs after that one
     for inner, pf in ((u, "u"), (v, "u"), (anon1, None)):
         ref = p.Sum((inner, 1))
